@@ -14,7 +14,10 @@ EXPLANATION = (
     "with .match; G2 the cache key mentions every input the cached value is data/control dependent on (pattern, "
     "ignorecase) and lookups use the same key; G3 the shared cache is mutated only in __match, clear() is size-guarded "
     "and precedes the store, the result comes from the local; G4 relax discipline R1/R2/R4 for everything reachable from "
-    "glob, handlers catch only resolver errors; G5 '**' de-duplicates by identity (C17 lint on resolver.py). Not decided: "
+    "glob, handlers catch only resolver errors; G5 '**' de-duplicates by identity (C17 lint on resolver.py); G6 every child is matched against the pattern and every "
+    "matching child is recorded or descended into (must-pass-through on the CFG); G7 results of the '**' fan-out are added only "
+    "after an identity duplicate test; G1 (flags) DOTALL is in effect for the compiled pattern on every path, as inline "
+    "flag of the translation or in every value the flags argument can take (flag-set dataflow); R5-R12 as for C07. Not decided: "
     "the match set / pre-order of results for concrete trees."
 )
 ASSUMPTIONS = [
